@@ -19,7 +19,8 @@ RULE = ("ASTs from the full-grammar generator (every node kind, lists in lists, 
         "shipped visitor (3 SQL dialects, round-trip, AliasRewriter, IdentifierStripper, Django Q, SQLAlchemy "
         "ORM/Core) whether it returns or raises; a == b iff the decoded terms are equal on generated pairs "
         "(re-parsed copy, one-leaf mutation, list-vs-singleton, namespace change). Non-trivial: the tree has "
-        "a list-valued field with >= 2 nodes, a body-less lambda or a namespace; distinct by decoded term.")
+        "a list-valued field with >= 2 nodes, a body-less lambda or a namespace; distinct by decoded term."
+        " One third of the trees are typed filters over the harness schema (scalar and relational) so that the Django and SQLAlchemy visitors run to completion; all override classes share one class name; near-copies include permuted call arguments.")
 ASSUMPTIONS = ["handlers under test call generic_visit themselves (otherwise sub-trees are legitimately skipped)"]
 
 KINDS = ["Identifier", "Attribute", "Null", "Integer", "Float", "Boolean", "String", "Geography", "Date",
